@@ -22,7 +22,10 @@ theorem pall (S : Schema) (hU : S.unambiguous = true) (n : Nat) : PAll S n := by
 
 theorem unmarshal_eq (S : Schema) (d tag : Nat) (bs : Bytes) :
     unmarshal S d tag bs =
-      if S.dyns.length ≤ d then .err .other else unmarshalFuel S (decFuel bs.length) d tag bs := rfl
+      if S.dyns.length ≤ d then .err .other else unmarshalFuel S (decFuel bs.length) d tag bs := by
+  unfold unmarshal unmarshalFuel
+  generalize decFuel bs.length = F
+  rfl
 
 /-- the round trip at the level of `marshal` / `unmarshal`, for any sufficient decoder fuel. -/
 theorem roundtrip_core (S : Schema) (hU : S.unambiguous = true) (d tag : Nat) (v v' : Val) (w : Option Ver)
